@@ -36,6 +36,22 @@ def run(rep):
     names = sorted(g['sym'])
     for root in rng.sample(leafy, min(len(leafy), 12 if quick else 120)):
         cases.append({'root': root, 'word': [rng.choice(names) for _ in range(rng.randrange(1, 4))], 'unchecked_root': True})
+    # elements whose type declares the attribute called `name`, as roots and as children of a parent that admits them
+    named = sorted(n for n, t in g['elements'].items() for tt in [t[0][6:] if t[0].startswith('<anon>') else t[0]] if tt in g['ctypes'] and any(a[0] == 'name' for a in g['ctypes'][tt]['attrs']))
+    for el in named:
+        tt = g['elements'][el][0]
+        tt = tt[6:] if tt.startswith('<anon>') else tt
+        own = [c['type'] for c in g['lib']['classes'] if c['name'] == el and c['type'] in g['templates']]
+        w0 = []
+        if own:
+            ws = sorted(rx.words(rx.of_tree(g['templates'][own[0]]), rx.alphabet(g['templates'][own[0]]), 3, 10), key=len)
+            w0 = ws[0] if ws else []
+        cases.append({'root': el, 'word': list(w0)})
+        for t, root in sorted(parents.items()):
+            if el in rx.alphabet(g['templates'][t]):
+                ws = [w for w in rx.words(rx.of_tree(g['templates'][t]), rx.alphabet(g['templates'][t]), 4, 60) if el in w]
+                if ws:
+                    cases.append({'root': root, 'word': list(min(ws, key=len))})
     # two variants of every fifth case: the later of two same-named children added first with forward=1; a stray child added while checking was off
     extra = []
     for k, c in enumerate(list(cases)):
